@@ -22,9 +22,9 @@ from common import NCPU, SUPPORTED, Pool, Report, chunks, run_tlc, seed, tla_une
 PID = "C01"
 
 
-def model_cfg(ver, tier, wd):
+def model_cfg(ver, tier, wd, scope="module"):
     mu = 3 if tier == "quick" else 4
-    fn = wd / f"MC_Decode_rt_{ver}.cfg"
+    fn = wd / f"MC_Decode_rt_{ver}_{scope}.cfg"
     fn.write_text(f"""SPECIFICATION Spec
 CONSTANTS
   Ver = "{ver}"
@@ -32,7 +32,8 @@ CONSTANTS
   MaxPrefix = {1 if tier == "quick" else 2}
   Classes = {{"EXT", "JABS", "JREL", "NAME", "LOCAL", "FREE", "CONST", "NOARG", "RAW"}}
   ByteVals = {{0, 1, 2, 4}}
-  Emit = TRUE
+  Scope = "{scope}"
+  Emit = {"TRUE" if scope == "module" else "FALSE"}
 INVARIANT DecodeModel
 INVARIANT RoundTripModel
 """)
@@ -86,6 +87,17 @@ def run(tier: str, rep: Report):
             gen[v] = cs
             if not cs:
                 rep.machinery_error(f"MC_Decode[{v}] emitted nothing usable: {r.out[-400:]}")
+    # the same invariants for function scopes (docstring slot, the encoder's "prepend None" rule); design level only
+    def mcf(job):
+        v, sc = job
+        return v, sc, run_tlc("MC_Decode", model_cfg(v, tier, wd, sc), workers=max(2, NCPU // 4), timeout=3000, heap="6g")
+
+    fjobs = [(v, sc) for v in (SUPPORTED if tier == "thorough" else ["38", "310"]) for sc in ("fn", "fndoc")]
+    with ThreadPoolExecutor(max_workers=4) as ex:
+        for v, sc, r in ex.map(mcf, fjobs):
+            rep.add_tlc(r, f"MC_Decode+RoundTripModel[{v},{tier},scope={sc}]")
+            if r.violated:
+                rep.machinery_error(f"RoundTripModel/DecodeModel violated on the reference model [{v},{sc}]: {r.violated[:2]}")
     rnd = random.Random(seed() + 4)
     limit = 8000 if tier == "quick" else 100000
     pool = Pool(SUPPORTED, per_version=4)
